@@ -10,6 +10,9 @@ def _lat(rng, to, iv):
     if r < 0.55:
         return 0
     if r < 0.85:
+        if to == 0:
+            # timeout 0: every check that is not ready at its first poll is slower than the timeout — all latencies
+            return rng.choice([0, 1, 1, 2, 3, max(iv - 1, 1), max(iv, 1), iv + 1, 2 * iv + 1])
         return max(0, to + rng.choice([-1, 0, 0, 1]))
     if r < 0.93:
         return max(0, iv + rng.choice([-1, 0, 1]))
@@ -39,19 +42,76 @@ def _seq(rng, length, to, iv):
     return out[:length]
 
 
+CRATE_DEFAULT = dict(iv=5000, delay=500, to=2000, sth=1, fth=2)     # HealthCheckConfig::default(), ms
+HARNESS_DEFAULT = dict(iv=10, delay=0, to=5, sth=1, fth=2)           # what the adapter passes to the wrapper builder's setters
+
+
+def _nat(v, d):
+    return int(v) if v is not None and v.isdigit() else d
+
+
+def _eff(header):
+    """the configuration a header describes (mirrors TR.Model.Health.cfgOf): via=cfg = stand-alone HealthCheckConfig
+    (absent keys keep the crate's defaults) handed over by with_config, which discards `pre=`; `post=` overrides"""
+    c = kvs(header)
+    via = c.get("via", "builder") == "cfg"
+    d = CRATE_DEFAULT if via else HARNESS_DEFAULT
+    e = {k: _nat(c.get(k), d[k]) for k in d}
+    if via:
+        for part in c.get("post", "").split(","):
+            kv = part.split(":")
+            if len(kv) == 2 and kv[0] in e and kv[1].isdigit():
+                e[kv[0]] = int(kv[1])
+    e["n"] = _nat(c.get("n"), 1)
+    e["strat"] = c.get("strat", "first")
+    e["via"] = via
+    e["cb"] = via and c.get("cb") == "1"
+    return e
+
+
+def _setters(rng, to, iv):
+    ks = rng.sample(["iv", "delay", "to", "sth", "fth"], rng.randint(1, 2))
+    vals = {"iv": [1, 5, 10, 20], "delay": [0, 1, 10], "to": [0, 0, 1, 5, 8, 15], "sth": [1, 2, 3], "fth": [1, 2, 3]}
+    return ",".join("%s:%d" % (k, rng.choice(vals[k])) for k in ks)
+
+
 def gen(rng, tier):
     n = rng.choice([1, 2, 2, 3, 3, 3, 4, 5]) if rng.random() < 0.97 else 0
     sth = rng.choice([1, 1, 2, 2, 3, 4]) if rng.random() < 0.96 else 0
     fth = rng.choice([1, 2, 2, 3, 3, 4]) if rng.random() < 0.96 else 0
     iv = rng.choice([1, 2, 3, 5, 10, 10, 10, 20]) if rng.random() < 0.98 else 0
-    to = rng.choice([0, 1, 3, 5, 5, 5, 8, 10, 15, 25])
+    to = rng.choice([0, 0, 1, 3, 5, 5, 5, 8, 10, 15, 25])
     delay = rng.choice([0, 0, 0, 1, 3, 10])
     strat = rng.choice(STRATS)
+    words = dict(n=n, sth=sth, fth=fth, iv=iv, to=to, delay=delay, strat=strat)
+    extra = []
+    # construction path: the wrapper builder's own setters, or a stand-alone HealthCheckConfig handed over by with_config
+    if rng.random() < 0.35:
+        extra.append("via=cfg")
+        if rng.random() < 0.7:
+            extra.append("cb=1")
+        if rng.random() < 0.3:
+            # setters that are not called keep the crate's defaults (5 s / 500 ms / 2 s / 1 / 2 / first-available)
+            for k in rng.sample(["iv", "delay", "to", "sth", "fth", "strat"], rng.randint(1, 3)):
+                del words[k]
+        if rng.random() < 0.25:
+            extra.append("pre=" + _setters(rng, to, iv))
+        if rng.random() < 0.25:
+            extra.append("post=" + _setters(rng, to, iv))
+    if rng.random() < 0.25:
+        extra.append("chk=fn")
+    if rng.random() < 0.08:
+        extra.append("start=0")
+    header0 = "health " + " ".join("%s=%s" % (k, words[k]) for k in ("n", "sth", "fth", "iv", "to", "delay", "strat") if k in words)
+    e = _eff(header0 + " " + " ".join(extra))
+    to, iv, delay = e["to"], e["iv"], e["delay"]
     dflt = rng.choice(["h", "h", "d", "u", "k", "k", "s", "h%d" % max(0, to + rng.choice([-1, 0, 1])), "u2"])
-    header = "health n=%d sth=%d fth=%d iv=%d to=%d delay=%d strat=%s dflt=%s" % (n, sth, fth, iv, to, delay, strat, dflt)
+    header = " ".join([header0, "dflt=%s" % dflt] + extra)
     ops = []
     if rng.random() < 0.3:
         ops.append("probe all")
+    if e["via"] and rng.random() < 0.5:
+        ops.append("probe config")
     for r in range(n):
         if rng.random() < 0.9:
             ops.append("manual script r=%d seq=%s" % (r, ",".join(_seq(rng, rng.randint(3, 30), to, iv))))
@@ -70,6 +130,10 @@ def gen(rng, tier):
             for _ in range(max(1, burst)):
                 ops.append("probe " + (which if which != "mixed" else rng.choice(["get_healthy", "get_usable"])))
 
+    # start() again / stop() while checks are in flight, in a share of the cases
+    lifecycle = rng.random() < 0.3 or "start=0" in extra
+    if delay >= 100 and rng.random() < 0.7:
+        ops.append("adv %d" % (delay + rng.choice([-1, 0, 0, 1])))
     rounds = rng.randint(4, 28)
     for _ in range(rounds):
         r = rng.random()
@@ -97,7 +161,22 @@ def gen(rng, tier):
         elif x < 0.14:
             ops.append(rng.choice(["probe status r=%d" % (n + rng.randint(0, 3)), "manual script r=%d seq=h" % (n + 1),
                                    "manual script r=0 seq=h,zz", "manual script r=0", "probe frobnicate", "manual reset",
-                                   "probe details r=%d" % (n + 2), "probe status"]))
+                                   "probe details r=%d" % (n + 2), "probe status", "probe u8", "probe u8 v=%d" % rng.choice([256, 300, 1000]),
+                                   "probe fresh", "probe fresh n=9"]))
+        elif x < 0.17:
+            ops.append(rng.choice(["probe u8 v=%d" % rng.choice([0, 1, 2, 3, 4, 99, 255]), "probe fresh n=%d" % rng.randint(0, 4), "probe config"]))
+        if lifecycle and rng.random() < 0.18:
+            y = rng.random()
+            if y < 0.5:
+                ops.append("manual start")
+            elif y < 0.8:
+                ops.append("manual stop")
+                if rng.random() < 0.5:
+                    # statuses after stop(): the checks in flight still complete, nothing new starts
+                    ops.append("adv %d" % rng.choice([1, max(to, 1), ivx, ivx * 3, max(to, 1) + ivx]))
+                    observe()
+            else:
+                ops += ["manual stop", "manual start"] if rng.random() < 0.5 else ["manual start", "manual start"]
     observe()
     return {"header": header, "ops": ops}
 
@@ -105,8 +184,8 @@ def gen(rng, tier):
 # ------------------------------------------------------------------------- log walking
 
 def _cfg(case):
-    c = kvs(case["header"])
-    return (int(c.get("n", "1")), int(c.get("sth", "1")), int(c.get("fth", "2")), c.get("strat", "first"))
+    e = _eff(case["header"])
+    return (e["n"], e["sth"], e["fth"], e["strat"])
 
 
 FULL = {"h": "healthy", "d": "degraded", "u": "unhealthy", "k": "unknown"}
@@ -212,24 +291,66 @@ def mon_thresholds(case, lines, meta):
     return None
 
 
-def mon_timeout_due(case, lines, meta):
-    """'failed or TIMED-OUT checks': a check is cut off (counted as timed out) only when it has run for the configured
-    timeout, and a check that answers within the timeout is never cut off — whatever earlier rounds did"""
-    c = kvs(case["header"])
-    to = int(c.get("to", "0") or 0)
-    start = {}
+def _checks(lines):
+    """-> ({serial: (resource, start instant, sym, latency)}, {serial: ('done'|'drop', instant)})"""
+    started, fate = {}, {}
     for l in lines:
         t, w = tparse(l)
         if not w:
             continue
-        if w[0] == "check_start":
-            start[w[1]] = t
-        elif w[0] == "check_done":
-            start.pop(w[1], None)
-        elif w[0] == "check_drop":
-            t0 = start.pop(w[1], None)
-            if t0 is not None and to > 0 and t - t0 < to:
-                return "resource %s: check started at t=%d was cut off as timed out at t=%d, after %d < timeout %d" % (w[1], t0, t, t - t0, to)
+        if w[0] == "check_start" and len(w) >= 4:
+            started[w[3]] = (w[1], t, w[2][0], int(w[2][1:] or 0))
+        elif w[0] == "check_done" and len(w) >= 4:
+            fate[w[3]] = ("done", t)
+        elif w[0] == "check_drop" and len(w) >= 3:
+            fate[w[2]] = ("drop", t)
+    return started, fate
+
+
+def mon_timeout_due(case, lines, meta):
+    """'failed or TIMED-OUT checks': a check is cut off (counted as timed out) only when it has run for the configured
+    timeout, and a check that answers within the timeout is never cut off — whatever earlier rounds did"""
+    to = _eff(case["header"])["to"]
+    started, fate = _checks(lines)
+    for k, (what, t) in fate.items():
+        if what == "drop" and k in started:
+            r, t0, _, _ = started[k]
+            if to > 0 and t - t0 < to:
+                return "resource %s: check started at t=%d was cut off as timed out at t=%d, after %d < timeout %d" % (r, t0, t, t - t0, to)
+    return None
+
+
+def mon_slow_is_failed(case, lines, meta):
+    """'failed OR TIMED-OUT checks … slower than the check timeout': a check that has not answered when its timeout has run
+    out counts as failed. The runtime acts only at the instants the case reaches (0 and after every `adv`): at the first
+    such instant at or after start + timeout, a check whose answer is not due yet (latency not elapsed, or it never answers)
+    must be cut off there and then — for timeout 0: a check that is not ready at its first poll. It must not be waited
+    for and counted with its own result, and it must not stay in flight."""
+    to = _eff(case["header"])["to"]
+    visited, t = [0], 0
+    for op in case["ops"]:
+        w = op.split()
+        if len(w) >= 2 and w[0] == "adv" and w[1].isdigit():
+            t += int(w[1])
+            visited.append(t)
+    started, fate = _checks(lines)
+    for k, (r, t0, sym, lat) in started.items():
+        due = next((v for v in visited if v >= t0 and v >= t0 + to), None)
+        if due is None:
+            continue
+        if sym != "s" and t0 + lat <= due:
+            continue                      # its own answer is there when the deadline is looked at: not a slow check
+        what = "never answers" if sym == "s" else "answers after %d ms" % lat
+        f = fate.get(k)
+        if f is None:
+            return ("resource %s: check %s started at t=%d (%s) had not answered when its timeout of %d ms ran out "
+                    "(first instant reached: t=%d) but was not counted as failed: it is still in flight at the end of the case" % (r, k, t0, what, to, due))
+        if f[0] == "done":
+            return ("resource %s: check %s started at t=%d (%s) had not answered when its timeout of %d ms ran out "
+                    "(first instant reached: t=%d) but was waited for and counted with its own result at t=%d" % (r, k, t0, what, to, due, f[1]))
+        if f[1] > due:
+            return ("resource %s: check %s started at t=%d (%s) was cut off only at t=%d although its timeout of %d ms had run out "
+                    "at t=%d" % (r, k, t0, what, f[1], to, due))
     return None
 
 
@@ -286,23 +407,68 @@ def canon(lines):
 
 def transitions(case, lines, meta=None):
     n, sth, fth, strat = _cfg(case)
+    e = _eff(case["header"])
+    hk = kvs(case["header"])
     tags = []
+    if e["via"]:
+        tags.append("via-cfg")
+        if any(k not in hk for k in ("iv", "delay", "to", "sth", "fth")):
+            tags.append("crate-default-used")
+        if "post" in hk:
+            tags.append("setter-after-with_config")
+        if "pre" in hk:
+            tags.append("setter-before-with_config")
+    if hk.get("chk") == "fn":
+        tags.append("closure-checker")
     last = {}
     started_at = {}
+    inflight = {}       # serial -> resource
+    stopped = hk.get("start", "1") == "0"
+    done_at = {}        # resource -> instant of the latest completion of a check of it that had been in flight
+    begun = {}          # serial -> instant of check_start
     for l in lines:
         t, w = tparse(l)
         if not w:
             continue
-        if w[0] == "check_done":
-            tags.append("done-" + w[2])
-        elif w[0] == "check_drop":
-            tags.append("timeout")
+        if w[0] in ("check_done", "check_drop"):
+            r, k = w[1], w[-1]
+            tags.append("done-" + w[2] if w[0] == "check_done" else "timeout")
+            if w[0] == "check_drop" and e["to"] == 0:
+                tags.append("timeout-0-cut-off-at-first-poll")
+            inflight.pop(k, None)
+            if begun.get(k, t) < t:
+                # a check that was in flight across instants (not one answered at its first poll)
+                if done_at.get(r) == t:
+                    tags.append("two-completions-one-resource-one-instant")
+                done_at[r] = t
+            if stopped:
+                tags.append("completes-after-stop")
         elif w[0] == "check_start":
             if started_at.get(w[1]) == t:
                 tags.append("two-rounds-one-instant")
             started_at[w[1]] = t
+            if w[1] in inflight.values():
+                tags.append("two-checks-of-one-resource-in-flight")
+            inflight[w[-1]] = w[1]
+            begun[w[-1]] = t
+        elif w[0] == "started":
+            tags.append("start-after-stop" if stopped else "start-again")
+            if inflight:
+                tags.append("restart-with-checks-in-flight")
+            stopped = False
+        elif w[0] == "stopped":
+            tags.append("stop")
+            if inflight:
+                tags.append("stop-with-checks-in-flight")
+            stopped = True
+        elif w[0] == "cb_change":
+            tags.append("cb-change")
+        elif w[0] == "cb_failed":
+            tags.append("cb-failed")
         elif w[0] == "noop":
             tags.append("noop")
+        elif w[0] == "probe" and w[1] in ("config", "u8", "fresh"):
+            tags.append("probe-" + w[1])
         elif w[0] == "probe" and w[1] == "details" and w[4] != "none":
             X, f, s = w[4], int(w[5][2:]), int(w[6][2:])
             if X in ("healthy", "degraded") and f > 0:
@@ -325,7 +491,11 @@ def transitions(case, lines, meta=None):
 ALL_TRANSITIONS = ["done-h", "done-d", "done-u", "done-k", "timeout", "two-rounds-one-instant", "noop",
                    "usable-with-failures-below-threshold", "unhealthy-with-successes-below-threshold",
                    "flip-k-h", "flip-k-d", "flip-k-u", "flip-h-d", "flip-h-u", "flip-d-h", "flip-d-u", "flip-u-h", "flip-u-d",
-                   "get_healthy-some", "get_healthy-none", "get_usable-some", "get_usable-none", "rr-select"]
+                   "get_healthy-some", "get_healthy-none", "get_usable-some", "get_usable-none", "rr-select",
+                   "via-cfg", "crate-default-used", "setter-after-with_config", "setter-before-with_config", "closure-checker",
+                   "timeout-0-cut-off-at-first-poll", "two-completions-one-resource-one-instant", "completes-after-stop",
+                   "two-checks-of-one-resource-in-flight", "start-after-stop", "start-again", "restart-with-checks-in-flight",
+                   "stop", "stop-with-checks-in-flight", "cb-change", "cb-failed", "probe-config", "probe-u8", "probe-fresh"]
 
 
 def nontrivial(case, lines, tags):
@@ -341,7 +511,12 @@ LEVEL_NOTE = ("Trusted: Lean kernel; the transcription of tokio's interval (Miss
               "between the filter and the re-read inside select (possible only on a multi-thread runtime); the Random strategy (feature off). "
               "Finding (not a failure of the theorems as designed): get_healthy and get_usable share one round-robin cursor, so interleaved "
               "calls over different eligible sets are not even per method (witness corpus/health/rr_shared_cursor.ops, "
-              "TR.Props.C18.shared_cursor_starves).")
+              "TR.Props.C18.shared_cursor_starves). "
+              "Entry points: configuration through the stand-alone HealthCheckConfig builder + with_config (crate defaults for setters not called, "
+              "setters before/after with_config), closure checker, start() again / stop() with checks in flight (the spawned checks are not aborted "
+              "and still complete: the model keeps them), observer callbacks (recorded always, hidden when not registered: not an input of the "
+              "model's transition function). The order in which checks that complete at one instant are processed is taken from the implementation "
+              "(@o= words, any order of the due checks is allowed): with two checks of one resource in flight after a restart it decides the outcome.")
 
 SPECS = {
     "C18": {
@@ -349,7 +524,8 @@ SPECS = {
         "module": "TR.Props.C18",
         "gen": gen,
         "canon": canon,
-        "monitors": [("c18-status-flips-only-at-thresholds", mon_thresholds), ("c18-selection-sound-and-even", mon_selection), ("c18-timed-out-means-timeout-elapsed", mon_timeout_due)],
+        "monitors": [("c18-status-flips-only-at-thresholds", mon_thresholds), ("c18-selection-sound-and-even", mon_selection), ("c18-timed-out-means-timeout-elapsed", mon_timeout_due),
+                     ("c18-slow-check-counts-as-failed", mon_slow_is_failed)],
         "transitions": transitions,
         "nontrivial": nontrivial,
         "all_transitions": ALL_TRANSITIONS,
@@ -360,16 +536,23 @@ SPECS = {
                 "interval), initial delay, all strategies incl. four custom selectors; per-resource regime-based result scripts "
                 "(runs of passing / failing / alternating / unknown results, never-completing checks, latencies at timeout-1/timeout/timeout+1); "
                 "advances of interval-1/interval/interval+1, timeout+-1, multiples (missed ticks) and long jumps; after each advance all "
-                "statuses, details and bursts of get_healthy/get_usable; a stream of invalid operations. distinct = distinct implementation "
+                "statuses, details and bursts of get_healthy/get_usable; a stream of invalid operations; 35 % of the cases built through HealthCheckConfig::builder() + "
+                "with_config (setters omitted -> crate defaults 5 s / 500 ms / 2 s, wrapper-builder setters before/after with_config, callbacks registered), 25 % with a "
+                "closure checker, 30 % with start() again / stop() / start() after stop() between rounds, 8 % started late; probes of the config getters, "
+                "HealthStatus<->u8, fresh contexts + Selector closure + extensions; timeout 0 in 2 of 11 cases with checks of every latency. distinct = distinct implementation "
                 "event log; non-trivial = a timed-out check, a flip to/from unhealthy, or a status held against counters below threshold",
         "trusted": ["tokio interval/timeout/spawn semantics as transcribed in TR.Model.Health (sampled by the correspondence check)",
-                    "harness: clock_gettime interposition, scripted checker, one poll of each accessor future", "python diff/monitors/canon (adjacent same-instant completion lines compared as a set)"],
+                    "harness: clock_gettime interposition, scripted checker, one poll of each accessor future", "python diff/monitors/canon (adjacent same-instant completion lines compared as a set)",
+                    "order of same-instant completions: observed from the implementation (@o=), every order of the due checks accepted by the model"],
         "assumptions": ["current-thread runtime: no status change between get_with_filter's filter and select's re-read",
                         "u64/usize counters modelled as unbounded Nat", "virtual time visits only the instants reached by adv"],
         "level_text": "Theorems TR.Props.C18.{unhealthy_only_after_threshold, healthy_only_after_run, degraded_at_once, unknown_changes_nothing, "
-                      "get_healthy_sound, get_usable_sound, none_iff_none, none_when_none_any_strategy, round_robin_even, reachable_is_fold}: "
+                      "get_healthy_sound, get_usable_sound, none_iff_none, none_when_none_any_strategy, round_robin_even, reachable_is_fold, "
+                      "slow_check_counts_as_failed, timeout_zero_first_poll, timed_out_only_when_due, restart_and_stop_keep_state, stopped_freezes, "
+                      "health_change_calls_are_the_transitions, callbacks_per_check, callbacks_only_observe, crate_default_ok, u8_roundtrip}: "
                       "for all sequences of completed checks (healthy/degraded/unhealthy/unknown/timed-out), all thresholds, any number of "
-                      "resources and all strategies (custom = any function). The model is tied to the real HealthCheckWrapper by agreement of "
+                      "resources and all strategies (custom = any function), every timeout (0 included), every sequence of operations incl. start()/stop(). "
+                      "The model is tied to the real HealthCheckWrapper by agreement of "
                       "event logs over many intervals of virtual time.",
         "level_note": LEVEL_NOTE,
     },
